@@ -300,9 +300,15 @@ func GenPlan(t *rapid.T, o Opts) Plan {
 			}
 		}
 	}
+	// the customer-rates tag: every combo belongs to the customer's country
+	taxReg := reg
+	if len(others) > 0 && rapid.IntRange(0, 11).Draw(t, "custrates") == 0 {
+		p.CustomerRates = rapid.SampledFrom(others).Draw(t, "custcountry")
+		taxReg = regs[p.CustomerRates]
+	}
 	if rapid.IntRange(0, 9).Draw(t, "includes") < 3 {
 		var cands []string
-		for _, cat := range reg.Categories {
+		for _, cat := range taxReg.Categories {
 			if !cat.Retained {
 				cands = append(cands, cat.Code)
 			}
@@ -343,7 +349,7 @@ func GenPlan(t *rapid.T, o Opts) Plan {
 			l.ItemCurrency = ""
 			l.AltPrices = nil
 		}
-		l.Taxes = combosFor(t, label+"_tx", reg, p.PricesInclude, others, o)
+		l.Taxes = combosFor(t, label+"_tx", taxReg, p.PricesInclude, others, o)
 		p.Lines = append(p.Lines, l)
 	}
 	docAdj := func(label string) DocAdj {
@@ -358,7 +364,7 @@ func GenPlan(t *rapid.T, o Opts) Plan {
 		default:
 			a.Amount = fixedAmount(t, label+"_amt", c, o.FixedAtCur)
 		}
-		a.Taxes = combosFor(t, label+"_tx", reg, p.PricesInclude, others, o)
+		a.Taxes = combosFor(t, label+"_tx", taxReg, p.PricesInclude, others, o)
 		return a
 	}
 	for i, n := 0, rapid.SampledFrom([]int{0, 0, 0, 1, 1, 2}).Draw(t, "ndisc"); i < n; i++ {
